@@ -35,6 +35,7 @@ PROPS = {
         bounds='induction step from every REACH-shaped state with chain <= 7 (thorough 8), 2 clients, any request with any 128-bit ids; walk at chain <= 4 (6); histories of 2 (3) requests from the empty store',
     ),
     'C02': dict(
+        H=['c06', 'c14'],
         I=['c'],
         K=dict(quick=['c02_cas_n7'], thorough=['c02_cas_n8']),
         S=dict(quick=['s_writes_addversion'], thorough=['s_writes_addversion']),
